@@ -1139,11 +1139,26 @@ def judge(spec, ref, records, chain, final, k=0, first_commit_k=0) -> list:
                     return bool(prev) and (
                         _to_str.get(max(prev)), m[1]) in miss
 
-                if all(m in roots or m in roots_e or downstream(m, miss)
+                def after_orphan(m):
+                    # the orphaned child itself need not be among the
+                    # missing launches (the uninterrupted run may never have
+                    # launched it either): a parentless instance is only
+                    # spawned as the successor of the task's previous
+                    # instance, so it is lost with that orphaned instance
+                    p = to_int.get(m[0])
+                    if p is None or not model.parentless(m[1], p):
+                        return False
+                    prev = [q for q in model.valid.get(m[1], ()) if q < p]
+                    return bool(prev) and orphan(
+                        (_to_str.get(max(prev)), m[1]))
+
+                roots_o = {m for m in miss if after_orphan(m)}
+                if all(m in roots or m in roots_e or m in roots_o
+                       or downstream(m, miss)
                        or downstream(m, relaunched)
                        or behind_lost_message(m)
                        or after_missing_parentless(m) for m in miss):
-                    if roots:
+                    if roots or roots_o:
                         sig += (':spawned-child-in-task_states-but-not-in-'
                                 'task_pool-at-crash')
                     elif roots_e:
